@@ -522,6 +522,13 @@ impl Monitors {
         if accepted {
             match m {
                 ChonkyMsg::LeaderProposal(p) => {
+                    // the vote is for exactly the block the justification implies (re-proposal) or the proposed payload
+                    let (num, implied) = p.justification.get_implied_block(&self.c.schedule, self.c.genesis.first_block);
+                    let want_hash = implied.or_else(|| p.proposal_payload.as_ref().map(|x| x.hash()));
+                    let vote_ok = post.high_vote.as_ref().map_or(false, |h| h.view == p.view() && h.proposal.number == num && Some(h.proposal.payload) == want_hash);
+                    if !vote_ok {
+                        self.alert("C05", "vote-not-for-the-proposed-block||", format!("node {node}: after accepting a proposal for view {} block {} the recorded vote is {:?}", p.view().number.0, num.0, post.high_vote.as_ref().map(|h| (h.view.number.0, h.proposal.number.0))));
+                    }
                     let ok = post.view == p.view().number && post.phase == Phase::Commit && post.high_vote.as_ref().map(|h| h.view.number) == Some(p.view().number);
                     if !ok {
                         self.alert("C05", "state-after-proposal||", format!("node {node}: after accepting a proposal for view {} the state is view {} phase {:?} high vote {:?}", p.view().number.0, post.view.0, post.phase, post.high_vote.as_ref().map(|h| h.view.number.0)));
